@@ -15,12 +15,14 @@
    lists and vectors; any trivia and discarded forms in the gaps; ANY number of elements below 2^64) is rejected with the
    class "duplicate element" exactly when two of its elements are equal (same normal form), wherever the pair stands, and
    is otherwise accepted as a set of all its elements; the condition is invariant under permutation (C08_set_literal_partial).
+   Likewise a MAP literal  { k1 v1 ... kn vn }  is rejected with the class "duplicate key" exactly when two of its keys are
+   equal and otherwise accepted with all n entries, the values in order (C08_map_literal_partial).
    PARTIAL: elements that are sets, maps or external values (history independence is proved on the sequence fragment
    only) and qsort itself (assumed to return a comparator-ordered permutation). *)
 From Coq Require Import ZArith NArith List Bool Permutation Sorted.
 From Coq.Strings Require Import Byte.
 From Verif Require Import Lanes Common Values Equality EqBasics EqEquiv Configs FlagProofs HashDup SortDup History.
-From Verif Require Import Scan Reader RoundTrip RoundTripEq RoundTripGap RoundTripErr RoundTripSet.
+From Verif Require Import Scan Reader RoundTrip RoundTripEq RoundTripGap RoundTripErr RoundTripSet RoundTripMap.
 From Coq Require Import String.
 Import ListNotations.
 
@@ -99,6 +101,19 @@ Example C08_set_example :
   has_equal_terms cfg00 (map (fun p => gerase (snd p)) els).
 Proof. exact set_example. Qed.
 
+(* whole documents: the map literal  { g1 k1 h1 v1 ... gn kn hn vn tl }  *)
+Theorem C08_map_literal_partial : forall c o m l tl, In c all_cfgs -> mapwf l None tl ->
+  let ts := map (fun en => gerase (ekey en)) l in
+  Forall (fun t => (tdepth t <= max_depth)%nat) ts -> Forall tsmall ts -> (Z.of_nat (List.length l) < 2 ^ 64)%Z ->
+  slice m 0 (List.length (maptext l None tl)) = maptext l None tl ->
+  exists r s, run_doc c o m (N.of_nat (List.length (maptext l None tl))) = Ret r s /\ r_eof r = false /\
+    ((has_equal_terms c ts /\ r_value r = None /\ r_err r = EDupKey) \/
+     (~ has_equal_terms c ts /\ r_err r = EOk /\
+      exists n ks' vx, r_value r = Some n /\ nval n = VMap ks' vx /\ List.length ks' = List.length l /\
+                       Forall2 (denotes c) (map (fun en => gerase (eval_ en)) l) vx)).
+Proof. exact map_document. Qed.
+
+Print Assumptions C08_map_literal_partial.
 Print Assumptions C08_set_literal_partial.
 Print Assumptions C08_verdict_is_pairwise_partial.
 Print Assumptions C08_sort_strategy.
